@@ -134,6 +134,41 @@ fn split_prefixes_inside_connections(rep: &Report) -> u64 {
     n
 }
 
+
+/// (d) serverbound packets at the upper end of what the protocol allows, in the phase in which they are legal: login
+/// Cookie Responses whose payload is 1 KiB ... 5 000 bytes (a signed authentication cookie with a large profile
+/// property; a session cookie padded with a long trace id) must be decoded and honoured like small ones.
+fn large_cookie_responses_inside_connections(rep: &Report) -> u64 {
+    let mut n = 0;
+    let secret = b"c09-large-cookies".to_vec();
+    for size in [200usize, 900, 1_100, 2_000, 3_500, 4_900] {
+        for which in ["authentication", "session"] {
+            n += 1;
+            let mut c = Case::default();
+            c.cfg.auth_secret = Some(secret.clone());
+            let addr = c.cfg.client_addr.to_string();
+            let mut login = Login { intent: 3, ..Default::default() };
+            let cookie = vsim::util::valid_cookie(&secret, 5, &addr, "Cookie_Holder", 0x0987, &[Prop { name: "textures".into(), value: "v".repeat(if which == "authentication" { size } else { 10 }), signature: None }]);
+            login.auth_cookie = Some(Some(cookie.clone()));
+            if which == "session" {
+                login.session = Some(serde_json::to_vec(&json!({"id": "116934ee-8b5a-49d4-8b54-af0b4d6dbe5f", "server_address": "h".repeat(size.min(200)), "server_port": 25565, "trace_id": "0".repeat(size)})).unwrap());
+            }
+            c.script = login.steps();
+            let obs = vsim::sim::run(&c);
+            let flag = obs.packets.iter().find_map(|(_, p)| if let codec::Pkt::EncryptionRequest { should_authenticate, .. } = p { Some(*should_authenticate) } else { None });
+            if flag != Some(false) || !obs.has("Transfer") {
+                rep.violation(Violation {
+                    key: format!("connection-decoding:large-{which}-cookie-response-refused"),
+                    text: format!("a returning player whose {which} Cookie Response carries about {size} bytes (authentication cookie {} bytes, valid): should_authenticate = {flag:?}, packets {:?}, result {:?}", cookie.len(), obs.kinds(), obs.result),
+                    replay: json!({"connection": "large-cookie", "which": which, "size": size}),
+                    weight: 24,
+                });
+            }
+        }
+    }
+    n
+}
+
 fn ordinals_inside_connections(rep: &Report) -> u64 {
     let mut n = 0u64;
     // (label, frame) - complete, well-framed packets whose only fault is one ordinal
@@ -198,6 +233,8 @@ pub fn run(cli: Cli) -> ! {
     let a = frames_inside_connections(&rep);
     let b = ordinals_inside_connections(&rep);
     let c = split_prefixes_inside_connections(&rep);
+    let d = large_cookie_responses_inside_connections(&rep);
+    rep.set("large_cookie_responses_inside_connections", json!(d));
     rep.set("serverbound_frames_split_inside_their_length_prefix", json!(c));
     rep.require("connection-level framing cases", a, 100);
     rep.require("connection-level ordinal cases", b, 10);
